@@ -124,6 +124,53 @@ def lifted_set():
     return out
 
 
+def lifted_set_conic():
+    """Expectation sets with a second-order-cone constraint: norm(E(z) - mu0, 2) <= r for one scenario's event and for
+    the event of all scenarios.  Every point of the mixed support satisfies the perspective form
+    || mu_k - p(E_k) mu0 || <= p(E_k) r  on the expectation variables of event k (and the simplex on p)."""
+    out = []
+    mu0 = np.array([0.5, -0.25])
+    for which in ("scenario-0", "all-scenarios", "both"):
+        def setup(c, which=which):
+            m = dro.Model(2)
+            z = m.rvar(2)
+            fs = m.ambiguity()
+            fs.suppset(z <= 2, z >= -2)
+            r = c.fresh_real("r")
+            c.assume(r > 0)
+            events = []
+            if which in ("scenario-0", "both"):
+                fs[0].exptset(rsome.norm(rsome.E(z) - mu0, 2) <= r)
+                events.append([0])
+            if which in ("all-scenarios", "both"):
+                fs.exptset(rsome.norm(rsome.E(z) - mu0, 2) <= r)
+                events.append([0, 1])
+            return {"fs": fs, "r": r, "events": events}
+
+        def call(ns):
+            P = ns["fs"].mix_support(primal=True)
+            ns["mix"] = ns["fs"].mix_model
+            return P
+
+        def sound(ns, P):
+            mix = ns["mix"]
+            pvar = mix.vars[0]
+            evars = mix.vars[1:1 + len(ns["events"])]
+            X = arr([ctx().fresh_real(f"M{j}_") for j in range(P.linear.shape[1])])
+            p = [X[pvar.first + s] for s in range(2)]
+            spec = [p_le(0, p[0]), p_le(0, p[1]), p_eq(p[0] + p[1], 1)]
+            for k, members in enumerate(ns["events"]):
+                pk = sum((p[s] for s in members), 0.0)
+                d = [X[evars[k].first + j] - pk * float(mu0[j]) for j in range(2)]
+                spec.append(D.soc_holds([pk * ns["r"]] + d))
+            return p_implies(D.feas(P, X), p_and(*spec))
+        obs, _ = check_function("rsome.dro:Ambiguity.mix_support", setup, call,
+                                [post("conic-expectation-sets: every point of the mixed support satisfies the perspective norm bound of each event", sound)],
+                                mode="D", label=f"norm-2 expectation set on {which}", bounded=True, z3_ms=60000)
+        out += obs
+    return out
+
+
 def free_multipliers():
     out = []
     for vname in ("static,E-maxof,expt-all", "both,E-maxof,expt-all,prob-ub", "event,E-affine,econstr,expt-per-scenario"):
@@ -414,7 +461,7 @@ def exact_saa(adapt):
 
 def jobs(tier):
     seed = int(os.environ.get("VERIF_SEED", "0") or 0)
-    return [{"name": "lifted-set", "kind": "lifted"}, {"name": "free-multipliers", "kind": "free"},
+    return [{"name": "lifted-set", "kind": "lifted"}, {"name": "lifted-set-conic", "kind": "lifted-conic"}, {"name": "free-multipliers", "kind": "free"},
             {"name": "special-cases-sampled", "kind": "special", "n": 40 if tier == "quick" else 400, "seed": seed}] + [
             {"name": f"exact-{c}-{'event' if a else 'static'}", "kind": "exact", "case": c, "adapt": a} for c in EXACT_CASES for a in (False, True)] + [
             {"name": f"exact-saa-{'event' if a else 'static'}", "kind": "saa", "adapt": a} for a in (False, True)]
@@ -423,6 +470,8 @@ def jobs(tier):
 def run_job(job):
     if job["kind"] == "lifted":
         return lifted_set()
+    if job["kind"] == "lifted-conic":
+        return lifted_set_conic()
     if job["kind"] == "free":
         return free_multipliers()
     if job["kind"] == "exact":
